@@ -20,11 +20,11 @@ import unicodedata
 from simverif.core import env
 from simverif.core.run import Run, SimBudget, SimIdle
 from simverif.core.rng import stream, H
-from simverif.core.simfs import SimFS, SimFSCrash, Mount
+from simverif.core.simfs import SimFS, SimFSCrash, SimFSError, Mount
 
 ID = 'C13'
 LEVEL = 'fault_enumeration'
-TIERS = {'quick': {'runs': 1800}, 'thorough': {'seconds': 600}}
+TIERS = {'quick': {'runs': 1200}, 'thorough': {'seconds': 600}}
 DET_PAIRS_PER_SLOT = 3
 RULE = ("one run = one seeded history of 6..50 wallet operations (encrypt / lock / unlock with the right password, "
         "with a derived wrong password, with a searched wrong password that decrypts to valid PKCS7 padding / "
@@ -72,7 +72,9 @@ EXPECTED_PROBES = [
     'wrong_pw_after_watch_only_account', 'acct_seed', 'acct_key', 'acct_watch', 'acct_single', 'acct_certs',
     'reload_encrypted', 'reload_plain', 'unlock_after_reload', 'secrets_compared', 'pack_roundtrip',
     'unpack_wrong_raised', 'crash_in_save_old', 'crash_in_save_new', 'add_account_while_locked', 'process_crash',
-    'ns_journal_prefixes',
+    'ns_journal_prefixes', 'completed_save_verified', 'remove_account', 'pid_changed', 'crash_left_temp_file',
+    'stale_tmp_at_save', 'stale_tmp_reused', 'stale_tmp_longer_than_new', 'crash_in_save_pre_rename',
+    'crash_in_save_post_write', 'crash_in_save_mid_write',
 ]
 
 def extra_coverage(cov):
@@ -195,13 +197,20 @@ def gen(run_seed, tier):
     has_secret = any(a['kind'] != 'watch' for a in accounts)
     n_acc = len(accounts)
     pw_set = locked = pref = disk_locked = False
+    disk_n_acc = 0
     ops = []
 
     def emit_save():
-        nonlocal pref, disk_locked
+        nonlocal pref, disk_locked, disk_n_acc
         if pref and not pw_set and not locked:
             pref = False
         disk_locked = n_acc > 0 and (locked or (pref and pw_set))
+        disk_n_acc = n_acc
+
+    def crash_args(at):
+        return {'op': 'save_crash', 'point': round(r.random(), 4), 'when': r.choice(['before', 'after']),
+                'model': r.choice(['a', 'b']), 'tear': r.choice([None, -1, 0.0, 0.5, 0.99, round(r.random(), 3)]),
+                'ns_lost': r.choice([0, 0, 0, 1, 2]), 'at': at}
 
     while len(ops) < n_ops:
         cand = {'save': 4.0, 'pref': 2.0, 'pref_big': 0.5, 'pref_encrypt': 0.8, 'reload': 1.2}
@@ -218,9 +227,13 @@ def gen(run_seed, tier):
             cand['unlock_vp'] = 1.5
         if n_acc < 5:
             cand['add_account'] = 1.5
+        if n_acc >= 2:
+            cand['remove_account'] = 0.8
+        cand['pref_shrink'] = 0.5
         if family == 'crash':
             cand['crash'] = 1.2
             cand['save_crash'] = 2.5
+            cand['stale_tmp'] = 2.0
         kinds, weights = zip(*cand.items())
         kind = r.choices(kinds, weights)[0]
         if kind == 'save':
@@ -268,15 +281,42 @@ def gen(run_seed, tier):
         elif kind == 'pack':
             ops.append({'op': 'pack', 'pw': r.randrange(len(passwords)),
                         'wrong': r.choice([None, 'other', 'append', 'norm', 'trunc'])})
+        elif kind == 'remove_account':
+            ops.append({'op': 'remove_account', 'pick': round(r.random(), 3)})
+            n_acc -= 1
+        elif kind == 'pref_shrink':
+            ops.append({'op': 'pref_shrink'})
         elif kind in ('crash', 'reload'):
             ops.append({'op': kind})
-            pw_set, locked = False, disk_locked
+            pw_set, locked, n_acc = False, disk_locked, disk_n_acc
         elif kind == 'save_crash':
-            ops.append({'op': 'save_crash', 'point': round(r.random(), 4), 'when': r.choice(['before', 'after']),
-                        'model': r.choice(['a', 'b']), 'tear': r.choice([None, -1, 0.0, 0.5, 0.99, round(r.random(), 3)]),
-                        'ns_lost': r.choice([0, 0, 0, 1, 2])})
+            ops.append(crash_args(r.choice([None, None, None, 'pre_rename', 'post_write', 'mid_write'])))
             emit_save()
             pw_set, locked = False, disk_locked
+        elif kind == 'stale_tmp':
+            # a save that dies once its temporary copy is (partly) written but not yet moved in place, then --
+            # after the restart -- a complete save of a SMALLER wallet, then a reload of what that save left
+            if n_acc < 5 and r.random() < 0.6:
+                ops.append({'op': 'add_account', 'spec': _gen_account(r)})
+            else:
+                ops.append({'op': 'pref', 'key': 'blob', 'value': 'B' * r.choice([2000, 6000, 15000])})
+            at = r.choices(['pre_rename', 'post_write', 'mid_write'], [6, 2, 2])[0]
+            ops.append(dict(crash_args(at), ns_lost=0, tear=None if at == 'pre_rename' else r.choice([None, 0.5, 0.99])))
+            pw_set, locked, n_acc = False, disk_locked, disk_n_acc     # the disk still holds the previous version
+            if locked and r.random() < 0.5:
+                ops.append({'op': 'unlock', 'pw': 'right'})
+                locked, pw_set = False, True
+            how = r.choice(['remove_account', 'pref_shrink', 'both', 'none'])
+            if how in ('remove_account', 'both') and n_acc >= 2:
+                ops.append({'op': 'remove_account', 'pick': round(r.random(), 3)})
+                n_acc -= 1
+            if how in ('pref_shrink', 'both'):
+                ops.append({'op': 'pref_shrink'})
+            ops.append({'op': 'save'})
+            emit_save()
+            if r.random() < 0.7:
+                ops.append({'op': 'reload'})
+                pw_set, locked = False, disk_locked
     # closing sequence: whatever state was reached must survive a save + restart + unlock
     ops.append({'op': 'save'})
     emit_save()
@@ -286,7 +326,8 @@ def gen(run_seed, tier):
             ops.append({'op': 'unlock', 'pw': 'wrong', 'variant': r.choice(_WRONG_VARIANTS),
                         'alt': r.randrange(len(passwords))})
         ops.append({'op': 'unlock', 'pw': 'right'})
-    return {'family': family, 'chunk': r.choice([512, 1024, 4096, 4096, 4096, 8192, 65536]),
+    return {'family': family, 'pid_mode': r.choices(['same', 'change'], [3, 1])[0],
+            'chunk': r.choice([512, 1024, 4096, 4096, 4096, 8192, 65536]),
             'bufsize': r.choice([8192, 8192, 4096, 1 << 20]), 'tear_extra': r.choice([1, 2, 4]),
             'accounts': accounts, 'passwords': passwords, 'ops': ops}
 
@@ -304,6 +345,8 @@ def shrink(sc):
     plain = [f'pw{i}' for i in range(len(sc.get('passwords', [])))]
     if sc.get('passwords') != plain:
         yield dict(sc, passwords=plain)
+    if sc.get('pid_mode', 'same') != 'same':
+        yield dict(sc, pid_mode='same')
     if sc.get('chunk') != 4096:
         yield dict(sc, chunk=4096)
     if sc.get('bufsize') != 8192:
@@ -484,8 +527,11 @@ def execute(scenario, keep_trace=False):
     ops = scenario.get('ops', [])
     tear_extra = int(scenario.get('tear_extra', 1))
 
-    fs0 = SimFS(chunk=scenario.get('chunk', 4096), bufsize=scenario.get('bufsize', 8192))
+    base_pid = 4242
+    pid_changes = scenario.get('pid_mode', 'same') == 'change'
+    fs0 = SimFS(chunk=scenario.get('chunk', 4096), bufsize=scenario.get('bufsize', 8192), pid=base_pid)
     fs0.mkdir(WALLET_DIR)
+    del SimFSError.raised[:]
     mount = Mount(fs0).install(wmod)
 
     # ---- the reference model ------------------------------------------------------------------
@@ -654,8 +700,12 @@ def execute(scenario, keep_trace=False):
         for path in sorted(set(ref.offered) | set(ref.written)):
             streams.append((path, bytes(ref.offered.get(path, b''))))
             streams.append((path, bytes(ref.written.get(path, b''))))
+        touched = {path for _, _, path, _ in ref.log} | {WALLET_PATH}
         for path, content in sorted(ref.listing().items()):
-            streams.append((path, content))
+            if path in touched:     # a leftover of a crashed save made *before* encryption was enabled is not
+                streams.append((path, content))   # "written while encryption is enabled" (noted, outside the statement)
+            else:
+                P['untouched_leftover_not_scanned'] += 1
         for m in M.accounts:
             o = m.orig
             if o['kind'] == 'watch':
@@ -686,9 +736,51 @@ def execute(scenario, keep_trace=False):
         except Exception as e:  # noqa
             mount.fs = pre
             unexpected(label, e)
-        if any(not getattr(f, 'closed', True) for f in ref.fds.values() if not isinstance(f, tuple)):
-            raise RuntimeError('harness: save left a file open')
+        if ref.open_files():
+            P['save_left_file_open'] += 1     # a leak, not a durability problem; clones need closed files
+            for fd in list(ref.fds):
+                ref.fds[fd].closed = True
+            ref.fds.clear()
         return pre, ref
+
+    def intended_dict(wallet, pref):
+        """The complete new version: what this wallet state serialises to (same decision as Wallet.save)."""
+        pw = M.password if (pref and M.password is not None) else None
+        return json.loads(json.dumps(wallet.to_dict(encrypt_password=pw)))
+
+    def stale_temp_files(pre, ref, new_len):
+        """Leftovers of an earlier crashed save that this save met (reach probes + text for reports)."""
+        stale = {p: c for p, c in pre.listing().items() if p != WALLET_PATH}
+        if not stale:
+            return ''
+        P['stale_tmp_at_save'] += 1
+        opened = {path for _, name, path, _ in ref.log if name in ('open', 'os.open')}
+        reused = {p: c for p, c in stale.items() if p in opened}
+        if reused:
+            P['stale_tmp_reused'] += 1
+            if any(len(c) > new_len for c in reused.values()):
+                P['stale_tmp_longer_than_new'] += 1
+        return '; leftover files met by this save: ' + ', '.join(
+            f'{p} ({len(c)} bytes{", reused" if p in reused else ""})' for p, c in sorted(stale.items()))
+
+    def verify_completed(wallet, pre, ref, label, pref):
+        """A save that ran to completion must leave exactly the new version (statement: 'complete new one')."""
+        expected = intended_dict(wallet, pref)
+        new_bytes = ref.peek(WALLET_PATH)
+        note = stale_temp_files(pre, ref, len(new_bytes or b''))
+        if new_bytes is None:
+            bad('C13.save_corrupt', f'{label}: a save without any crash left no wallet file{note}', state='missing')
+        try:
+            got = product_read(ref.reboot(ref.crash_view('a')))
+        except Exception as e:  # noqa
+            bad('C13.save_corrupt', f'{label}: after a save without any crash the wallet file ({len(new_bytes)} '
+                f'bytes) cannot be read: WalletStorage.read() raises {type(e).__name__}: {e}{note}',
+                state='empty' if not new_bytes else 'unparseable')
+        if got != expected:
+            bad('C13.save_corrupt', f'{label}: after a save without any crash the wallet file ({len(new_bytes)} '
+                f'bytes) is not the new version of the wallet{note}', state='other')
+        P['completed_save_verified'] += 1
+        return expected
 
     def enumerate_save(wallet, action, label):
         st['saves'] += 1
@@ -696,27 +788,23 @@ def execute(scenario, keep_trace=False):
         must_be_encrypted = M.pref and M.password is not None
         pre, ref = reference_save(wallet, action, label)
         model_save()
+        if must_be_encrypted:
+            scan_plaintext(ref)
+        new_dict = verify_completed(wallet, pre, ref, f'{label} #{save_no}', M.pref)
         old_bytes = pre.peek(WALLET_PATH)
         new_bytes = ref.peek(WALLET_PATH)
         old_exists = old_bytes is not None
         n_ops = ref.opno
         ref_log = [(name, path, nb) for _, name, path, nb in ref.log]
-        if new_bytes is None:
-            bad('C13.torn_save', f'{label}: a fault-free save left no wallet file', state='missing', op='none',
-                when='after', model='-')
         try:
-            new_dict = product_read(ref.reboot(ref.crash_view('a')))
             old_dict = product_read(pre.reboot(pre.crash_view('a'))) if old_exists else None
         except Exception as e:  # noqa
-            unexpected('read_after_save', e)
-        if new_dict != json.loads(new_bytes.decode('utf-8')):
-            raise RuntimeError('harness: WalletStorage.read() differs from the reference file image')
+            raise RuntimeError(f'harness: the previous wallet file is unreadable although every earlier save was '
+                               f'verified: {type(e).__name__}: {e}')
         if not old_exists:
             P['first_save_no_previous_file'] += 1
-        if sum(1 for name, _, _ in ref_log if name == 'pwrite') > 1:
+        if sum(1 for name, _, _ in ref_log if name in ('pwrite', 'os.write')) > 1:
             P['multi_chunk_save'] += 1
-        if must_be_encrypted:
-            scan_plaintext(ref)
         verdicts = {}
         rng = run.rng('tear', save_no)
         images = distinct = 0
@@ -777,8 +865,10 @@ def execute(scenario, keep_trace=False):
                     P['post_mortem_ops_refused'] += c.post_mortem
                 for model in ('a', 'b'):
                     u = c.unsynced_max(model)
-                    if u == 0:
+                    if not c.any_dirty(model):
                         keeps = [None]
+                    elif u == 0:
+                        keeps = [None, -1]          # only truncations are pending
                     elif u <= 40:
                         keeps = [None, -1] + list(range(u))
                     else:
@@ -789,7 +879,7 @@ def execute(scenario, keep_trace=False):
                             F['ns_op_lost'] += 1
                             P['ns_journal_prefixes'] += 1
                         for keep in keeps:
-                            if u:
+                            if len(keeps) > 1:
                                 P['torn_variants'] += 1
                                 if keep is None:
                                     F['unsynced_all_kept'] += 1
@@ -831,11 +921,25 @@ def execute(scenario, keep_trace=False):
         new_disk = model_save(commit=False)
         if must_be_encrypted:
             scan_plaintext(ref)
+        verify_completed(wallet, pre, ref, f'save #{st["saves"]}', new_disk['pref'])
         mount.fs = pre
         old_bytes, new_bytes = pre.peek(WALLET_PATH), ref.peek(WALLET_PATH)
         n_ops = ref.opno
         k = min(n_ops, 1 + int(float(op.get('point', 0.5)) * n_ops))
         when = 'after' if op.get('when') == 'after' else 'before'
+        # structural crash points: the temporary copy is (partly) written, the rename has not happened
+        names = [name for _, name, _, _ in ref.log]
+        writes = [i + 1 for i, nm in enumerate(names) if nm in ('pwrite', 'os.write')]
+        moves = [i + 1 for i, (_, nm, path, _) in enumerate(ref.log) if nm == 'rename' and path == WALLET_PATH]
+        at = op.get('at')
+        if at == 'pre_rename' and moves:
+            k, when = moves[0], 'before'
+        elif at == 'post_write' and writes:
+            k, when = writes[-1], 'after'
+        elif at == 'mid_write' and writes:
+            k, when = writes[0], 'after'
+        if at and (moves or at != 'pre_rename') and writes:
+            P['crash_in_save_' + at] += 1
         c = pre.clone()
         c.reset_log()
         c.arm(k, when)
@@ -865,6 +969,8 @@ def execute(scenario, keep_trace=False):
         opname = ref.log[k - 1][1]
         where = f'save: crash {when} operation {k}/{n_ops} ({opname}), namespace model {model}'
         mount.fs = pre.reboot(view)
+        if any(p != WALLET_PATH for p in view):
+            P['crash_left_temp_file'] += 1
         if content == new_bytes:
             M.disk = new_disk
             P['crash_in_save_new'] += 1
@@ -1021,6 +1127,9 @@ def execute(scenario, keep_trace=False):
 
     # ---- one process incarnation ------------------------------------------------------------------
     async def incarnation(first):
+        if pid_changes and not first:
+            mount.fs.pid = base_pid + len(run.loops) - 1
+            P['pid_changed'] += 1
         ledger = _ledger_class()({'db': Database(':memory:'), 'headers': Headers(':memory:'), 'data_path': '/sim'})
         await ledger.db.open()
         manager = _Manager(ledger)
@@ -1109,6 +1218,20 @@ def execute(scenario, keep_trace=False):
             elif kind == 'pref':
                 wallet.preferences[str(op.get('key', 'k'))] = op.get('value')
                 run.ev('pref', n)
+            elif kind == 'pref_shrink':
+                for key in sorted(wallet.preferences.data):
+                    if key != ENCRYPT_ON_DISK:
+                        del wallet.preferences[key]
+                run.ev('pref_shrink', n)
+            elif kind == 'remove_account':
+                if len(M.accounts) < 2:
+                    P['skipped_op'] += 1
+                    continue
+                idx = min(len(M.accounts) - 1, int(float(op.get('pick', 0.99)) * len(M.accounts)))
+                wallet.accounts.remove(wallet.accounts[idx])
+                del M.accounts[idx]
+                P['remove_account'] += 1
+                run.ev('remove_account', n, idx, len(wallet.accounts))
             elif kind == 'pref_encrypt':
                 M.pref = bool(op.get('value'))
                 wallet.preferences[ENCRYPT_ON_DISK] = M.pref
@@ -1157,6 +1280,10 @@ def execute(scenario, keep_trace=False):
                 break
     finally:
         mount.uninstall()
+    if SimFSError.raised or mount.unmodelled:
+        # a limitation of the simulator, never a finding: the runner reports a harness error (exit 2)
+        raise RuntimeError(f'harness: the product used file-system features SimFS does not model: '
+                           f'{(SimFSError.raised + mount.unmodelled)[:3]}')
     run.nontrivial = P['save_enumerated'] > 0
     run.finish()
     return run.result()
